@@ -26,7 +26,6 @@ import (
 	"io"
 	"net"
 	"net/http"
-	"net/http/httputil"
 	"net/url"
 	"sync"
 	"syscall"
@@ -944,30 +943,42 @@ func (s *Stream) upgrade(uri *url.URL, stream sonic.Stream, headers []Header) er
 		return err
 	}
 
-	s.handshakeBuffer = s.handshakeBuffer[:cap(s.handshakeBuffer)]
-	n, err := stream.Read(s.handshakeBuffer)
-	if err != nil {
-		return err
+	// The response may arrive in several segments and may be followed, in the same segment, by the first frames:
+	// read until the blank line that ends the response head; everything after it is frame data.
+	s.handshakeBuffer = s.handshakeBuffer[:0]
+	headLen := -1
+	for headLen < 0 {
+		if len(s.handshakeBuffer) == cap(s.handshakeBuffer) {
+			if cap(s.handshakeBuffer) >= MaxHandshakeResponseSize {
+				return ErrCannotUpgrade
+			}
+			grown := make([]byte, len(s.handshakeBuffer), 2*cap(s.handshakeBuffer))
+			copy(grown, s.handshakeBuffer)
+			s.handshakeBuffer = grown
+		}
+		n, err := stream.Read(s.handshakeBuffer[len(s.handshakeBuffer):cap(s.handshakeBuffer)])
+		s.handshakeBuffer = s.handshakeBuffer[:len(s.handshakeBuffer)+n]
+		if i := bytes.Index(s.handshakeBuffer, []byte("\r\n\r\n")); i >= 0 {
+			headLen = i + 4
+		} else if err != nil {
+			if err == io.EOF {
+				err = io.ErrUnexpectedEOF
+			}
+			return err
+		}
 	}
-	s.handshakeBuffer = s.handshakeBuffer[:n]
-	rd := bytes.NewReader(s.handshakeBuffer)
+
+	rd := bytes.NewReader(s.handshakeBuffer[:headLen])
 	res, err := http.ReadResponse(bufio.NewReader(rd), req)
 	if err != nil {
 		return err
 	}
 
-	rawRes, err := httputil.DumpResponse(res, true)
-	if err != nil {
-		return err
-	}
-
-	resLen := len(rawRes)
-	extra := len(s.handshakeBuffer) - resLen
-	if extra > 0 {
+	if headLen < len(s.handshakeBuffer) {
 		// we got some frames as well with the handshake so we can put
 		// them in src for later decoding before clearing the handshake
 		// buffer
-		_, _ = s.src.Write(s.handshakeBuffer[resLen:])
+		_, _ = s.src.Write(s.handshakeBuffer[headLen:])
 	}
 	s.handshakeBuffer = s.handshakeBuffer[:0]
 
